@@ -282,6 +282,11 @@ func (blockchain *Blockchain) isEmpty() bool {
 }
 
 func (blockchain *Blockchain) verify(lastHostBlocks []*ledger.Block, neighborBlocks []*ledger.Block, oldHostBlocks []*ledger.Block, timestamp int64) ([]*ledger.Block, error) {
+	for _, neighborBlock := range neighborBlocks {
+		if neighborBlock == nil {
+			return nil, errors.New("neighbor's blockchain contains a null block")
+		}
+	}
 	if len(oldHostBlocks) == 0 && len(neighborBlocks) < 2 {
 		return nil, errors.New("neighbor's blockchain is too short")
 	} else if len(oldHostBlocks) > 0 && (len(neighborBlocks) == 0 || lastHostBlocks[0].PreviousHash() != neighborBlocks[0].PreviousHash()) {
